@@ -176,7 +176,7 @@ def h_modes(X, mode_names, scenarios, thorough=False):
     strategy = X.choose("connection_strategy", ["eager", "lazy"])
     proxy_mode = mode_name in ("regular", "upstream:http", "upstream:https")
     form = X.choose("request_form", ["absolute", "origin", "absolute-https"]) if (proxy_mode and scenario in ("plain", "direct-tls")) else "origin"
-    second = X.choose("second_request", ["none", "same-host", "other-host"])
+    second = X.choose("second_request", ["none", "same-host", "other-host"] + (["same-host-port-other-scheme"] if form in ("absolute", "absolute-https") else []))
     third = _opt(X, "third_request", ["none", "same-host", "other-host"], "none") if (thorough and second != "none") else "none"
     keep_host = _opt(X, "keep_host_header", [False, True], False) if thorough else False
     connect_host_hdr = _opt(X, "http_connect_send_host_header", [True, False], True) if thorough else True
@@ -262,7 +262,14 @@ def h_modes(X, mode_names, scenarios, thorough=False):
         else:
             client(HELLO)
             client(req(ORIGIN, "/d", form))
-        if second != "none":
+        if second == "same-host-port-other-scheme":
+            # same host AND port as the first request, but the other scheme: must not travel on the first request's connection
+            if form == "absolute-https":
+                client(req(ORIGIN + ":443", "/2", "absolute"))
+            else:
+                client(req(ORIGIN + ":80", "/2", "absolute-https"))
+            X.reach("scheme-switch-same-port")
+        elif second != "none":
             client(req(ORIGIN if second == "same-host" else OTHER, "/2", form))
         if third != "none":
             client(req(ORIGIN if third == "same-host" else OTHER, "/3", form))
